@@ -1,9 +1,9 @@
 package main
 
 import (
-	"fmt"
+	"os"
 
-	"github.com/nginx/nginx-gateway-fabric/internal/mode/static/telemetry"
+	"github.com/nginx/nginx-gateway-fabric/verifharness/c19"
 )
 
-func main() { fmt.Println(telemetry.Data{}) }
+func main() { os.Exit(c19.Run(os.Args[1:])) }
